@@ -80,6 +80,16 @@ class Res:
         return f"Res({self.label},{self.cls})"
 
 
+class Aw:
+    """An awaitable that is not a coroutine (like a Future or an object with __await__)."""
+
+    def __init__(self, coro):
+        self._coro = coro
+
+    def __await__(self):
+        return self._coro.__await__()
+
+
 class HookFault(Exception):
     """Base of custom injected exceptions."""
 
@@ -551,6 +561,8 @@ class Env:
             if f is not None:
                 raise f
 
+        if awaitable == "aw":
+            return lambda ctx, sleep_s: Aw(before_sleep_async(ctx, sleep_s))
         return before_sleep_async if awaitable else before_sleep
 
     def _sleep_pre(self, which, s):
@@ -586,6 +598,9 @@ class Env:
         if kind == "async":
             async def sleeper(s):
                 await env._sleep_async(which, s)
+        elif kind == "aw":
+            def sleeper(s):
+                return Aw(env._sleep_async(which, s))
         else:
             def sleeper(s):
                 env._sleep_sync(which, s)
